@@ -149,9 +149,11 @@ def run_tlc(module, cfg, workdir, *, workers=None, env=None, simulate=None, dept
     run time).  Returns a TLCResult; raises MachineryError on parse/semantic errors of the spec."""
     t0 = time.time()
     os.makedirs(workdir, exist_ok=True)
+    modpath = module if os.path.isabs(module) else os.path.join(SPEC, module + ".tla")
+    module = os.path.basename(modpath)[:-4]
     meta = os.path.join(workdir, f"meta-{module}-{os.getpid()}-{int(t0*1000)%100000}")
     cfgpath = cfg if os.path.isabs(cfg) else os.path.join(SPEC, cfg)
-    jopts = [f"-Xmx{heap}", "-XX:+UseParallelGC"]
+    jopts = [f"-Xmx{heap}", "-XX:+UseParallelGC", f"-DTLA-Library={SPEC}"]
     if dfs:
         jopts.append("-Dtlc2.tool.queue.IStateQueue=StateDeque")
     cmd = ["java", *jopts, "-cp", TLA_CP, "tlc2.TLC", "-metadir", meta, "-noGenerateSpecTE",
@@ -170,7 +172,7 @@ def run_tlc(module, cfg, workdir, *, workers=None, env=None, simulate=None, dept
         cmd += ["-seed", str(seed)]
     if extra:
         cmd += list(extra)
-    cmd.append(os.path.join(SPEC, module + ".tla"))
+    cmd.append(modpath)
     e = dict(os.environ)
     e.pop("JAVA_TOOL_OPTIONS", None)
     if env:
@@ -346,6 +348,7 @@ class Ctx:
         os.makedirs(os.path.join(VERIF, "evidence"), exist_ok=True)
         evpath = os.path.join(VERIF, "evidence", f"{self.pid}.json")
         if os.environ.get("VERIF_EVIDENCE_DIR"):
+            os.makedirs(os.environ["VERIF_EVIDENCE_DIR"], exist_ok=True)
             evpath = os.path.join(os.environ["VERIF_EVIDENCE_DIR"], f"{self.pid}.json")
         with open(evpath, "w") as f:
             json.dump(ev, f, indent=1, default=str)
